@@ -8,12 +8,9 @@ import Echse.Model.RrDly
 namespace Echse.Lemmas.RrOkBase
 open Echse.Rrule Echse.Instant Echse.Spec.RrOk
 
-/-- The one extra hypothesis of the `*_ok_partial` theorems.  It excludes an all-day seed (DTSTART a DATE,
-`H = ALL_DAY`) combined with BYMINUTE or BYSECOND parts and no BYHOUR: the fillers then take the hour from the seed and
-emit instants with `H = ALL_DAY` and a non-zero minute / second, which are not `WfInst`.  (An all-day seed with BYHOUR
-is fine: the results are timed instants.)  RFC 5545 forbids BYHOUR / BYMINUTE / BYSECOND altogether when DTSTART is a
-DATE, so `TimeOk` holds for every conforming rule. -/
-def TimeOk (r : Rule) (p : Inst) : Prop := p.H = allDay → r.H = [] → (r.M = [] ∧ r.S = [])
+/- (A hypothesis `TimeOk r p` -- no BYMINUTE / BYSECOND without BYHOUR on an all-day seed -- used to be defined here
+for the weekly and daily filler theorems.  Since `make_enum` ignores BYHOUR / BYMINUTE / BYSECOND next to a DATE seed
+(RFC 5545, 3.3.10) it is not needed any more: `fillWly_ok`, `fillDly_ok`.) -/
 
 /-! ### order keys -/
 
